@@ -472,4 +472,25 @@ theorem FInv.safe {s : FSt} (h : FInv s) (evs : List FEv) (hd : FDisc true true 
         exact (h.rd F hr p (by simpa using hd.1.2)).1
     | _ => trivial
 
+theorem lookupD_of_mem_nodup {α : Type} (l : List (Path × Option α)) (hn : (l.map Prod.fst).Nodup)
+    (p : Path) (v : Option α) (h : (p, v) ∈ l) : lookupD l p = v := by
+  induction l with
+  | nil => cases h
+  | cons e t ih =>
+    obtain ⟨q, w⟩ := e
+    simp only [List.map_cons, List.nodup_cons] at hn
+    unfold lookupD
+    simp only [List.lookup_cons]
+    rcases List.mem_cons.mp h with he | ht
+    · cases he
+      simp
+    · have hne : p ≠ q := by
+        intro e
+        apply hn.1
+        rw [← e]
+        exact List.mem_map.mpr ⟨(p, v), ht, rfl⟩
+      have : (p == q) = false := by simpa using hne
+      simp only [this]
+      exact ih hn.2 ht
+
 end TantivyModel.GC
